@@ -44,19 +44,6 @@ Theorem C02_slice_returns_on_domain : forall vs fs ref n mask,
   exists r, slice_triangles_by_plane ROps vs fs ref n mask = Ok r.
 Proof. exact slice_total. Qed.
 
-(* dtypes (clauses "float64 vertices, int64 faces", mapping int64): on the dtype model of the wrapper — which return statement
-   of slice_faces_plane is taken decides the dtypes, the wrapper converts the vertices with np.asarray(.., float64) first and
-   asserts float64 / int64 / int64 at the end — whatever dtype the vertex array has (float64, float32, float16, integer): if the
-   call returns, the three arrays are float64 / int64 / int64; and on the domain it returns *)
-Theorem C02_public_dtypes : forall vdt vs fs ref n mask r,
-  slice_triangles_by_plane ROps vs fs ref n mask = Ok r ->
-  slice_triangles_by_plane_dtypes ROps vdt vs fs ref n mask = Ok (MkDt VF64 I64 I64).
-Proof. exact public_dtypes. Qed.
-Theorem C02_public_dtypes_on_domain : forall vdt vs fs ref n mask,
-  (forall f, In f fs -> face_valid (length vs) f) -> mask_ok (length fs) mask ->
-  slice_triangles_by_plane_dtypes ROps vdt vs fs ref n mask = Ok (MkDt VF64 I64 I64).
-Proof. exact public_dtypes_total. Qed.
-
 (* definitional: pins the shape of the model; the content is carried by the traced ties / correspondence *)
 (* empty mesh, mesh without faces: three empty arrays (the model evaluated on empty lists) *)
 Theorem C02_slice_empty_inputs :
@@ -64,11 +51,29 @@ Theorem C02_slice_empty_inputs :
   (forall vs ref n mask, mask = None \/ mask = Some [] ->
      slice_triangles_by_plane ROps vs [] ref n mask = Ok (MkOut [] [] [])).
 Proof. exact (conj slice_no_vertices slice_no_faces). Qed.
-(* what the conversion line is for (the code before fixes/C02-vertex-dtype.diff): a float32 array comes back as float32 from the
-   zero-vertex and nothing-cut returns and the wrapper's assertion fails; the other two returns are float64 anyway *)
+(* dtypes (clauses "float64 vertices, int64 faces", mapping int64): look-ups in the dtype table of the model (which return
+   statement of slice_faces_plane is taken decides the dtypes; the wrapper converts vertices and faces with np.asarray first and
+   asserts float64 / int64 / int64 at the end).  For any vertex dtype (float64/32/16, integer) and any integer face dtype (signed or
+   unsigned): the three arrays are float64 / int64 / int64, and on the domain the call returns.  The table itself is tied to the
+   code by the correspondence check (wrapper and kernel called with such arrays) — validated, not proved. *)
+Theorem C02_public_dtypes : forall vdt fdt vs fs ref n mask r,
+  slice_triangles_by_plane ROps vs fs ref n mask = Ok r ->
+  slice_triangles_by_plane_dtypes ROps vdt fdt vs fs ref n mask = Ok (MkDt VF64 I64 I64).
+Proof. exact public_dtypes. Qed.
+Theorem C02_public_dtypes_on_domain : forall vdt fdt vs fs ref n mask,
+  (forall f, In f fs -> face_valid (length vs) f) -> mask_ok (length fs) mask ->
+  slice_triangles_by_plane_dtypes ROps vdt fdt vs fs ref n mask = Ok (MkDt VF64 I64 I64).
+Proof. exact public_dtypes_total. Qed.
+(* what the two conversion lines are for (the code before /repo 1119c57 and before fixes/C02-unsigned-faces.diff): a float32 array
+   comes back as float32 from the zero-vertex and nothing-cut returns and the wrapper's assertion fails; an unsigned face array is
+   rejected by the bin counting on the nothing-cut return (uint64 also when cut) *)
 Theorem C02_dtypes_without_conversion :
-  wrapper_dtypes false VF32 PKeptOnly = Raise AssertionError /\ wrapper_dtypes false VF32 PZeroVerts = Raise AssertionError /\
-  wrapper_dtypes false VF32 PCut = Ok (MkDt VF64 I64 I64) /\ wrapper_dtypes false VF32 PEmpty = Ok (MkDt VF64 I64 I64).
+  wrapper_dtypes false true VF32 I64 PKeptOnly = Raise AssertionError /\
+  wrapper_dtypes false true VF32 I64 PZeroVerts = Raise AssertionError /\
+  wrapper_dtypes false true VF32 I64 PCut = Ok (MkDt VF64 I64 I64) /\ wrapper_dtypes false true VF32 I64 PEmpty = Ok (MkDt VF64 I64 I64) /\
+  wrapper_dtypes true false VF64 U32 PKeptOnly = Raise ValueError /\ wrapper_dtypes true false VF64 U32 PCut = Ok (MkDt VF64 I64 I64) /\
+  wrapper_dtypes true false VF64 U64 PCut = Raise ValueError /\ wrapper_dtypes true false VF64 U64 PEmpty = Ok (MkDt VF64 I64 I64) /\
+  wrapper_dtypes true false VF64 I32 PKeptOnly = Ok (MkDt VF64 I64 I64).
 Proof. exact dtypes_without_conversion. Qed.
 (* end of the definitional block *)
 
@@ -116,6 +121,16 @@ Theorem C02_public_face_order_invariant : forall vs fs fs' ref n mask mask' r r'
   slice_triangles_by_plane ROps vs fs' ref n mask' = Ok r' ->
   Permutation (mesh_tris (mo_v r) (mo_f r)) (mesh_tris (mo_v r') (mo_f r')).
 Proof. exact public_face_order_invariant. Qed.
+(* ... with provenance: pair every returned triangle with the input face (index triple) its mapping entry names — the mapping
+   follows the permutation of the faces *)
+Theorem C02_public_face_order_invariant_provenance : forall vs fs fs' ref n mask mask' r r', vs <> [] ->
+  mask_ok (length fs) mask -> mask_ok (length fs') mask' ->
+  Permutation (zip fs (mask_list (length fs) mask)) (zip fs' (mask_list (length fs') mask')) ->
+  slice_triangles_by_plane ROps vs fs ref n mask = Ok r ->
+  slice_triangles_by_plane ROps vs fs' ref n mask' = Ok r' ->
+  Permutation (map (with_source fs) (zip (mo_map r) (mesh_tris (mo_v r) (mo_f r))))
+              (map (with_source fs') (zip (mo_map r') (mesh_tris (mo_v r') (mo_f r')))).
+Proof. exact public_face_order_invariant_provenance. Qed.
 Theorem C02_public_face_order_invariant_nomask : forall vs fs fs' ref n r r', vs <> [] -> Permutation fs fs' ->
   slice_triangles_by_plane ROps vs fs ref n None = Ok r ->
   slice_triangles_by_plane ROps vs fs' ref n None = Ok r' ->
@@ -152,6 +167,13 @@ Theorem C02_public_idempotent : forall vs fs ref n r r2, vs <> [] ->
   slice_triangles_by_plane ROps (mo_v r) (mo_f r) ref n None = Ok r2 ->
   Permutation (mesh_tris (mo_v r2) (mo_f r2)) (mesh_tris (mo_v r) (mo_f r)).
 Proof. exact public_idempotent. Qed.
+Theorem C02_public_idempotent_masked : forall vs fs ref n mask mask2 r r2, vs <> [] -> mask_ok (length fs) mask ->
+  slice_triangles_by_plane ROps vs fs ref n mask = Ok r ->
+  length mask2 = length (mo_map r) ->
+  (forall j i, nth_error (mo_map r) j = Some i -> nth_error mask2 j = nth_error (mask_list (length fs) mask) i) ->
+  slice_triangles_by_plane ROps (mo_v r) (mo_f r) ref n (Some mask2) = Ok r2 ->
+  Permutation (mesh_tris (mo_v r2) (mo_f r2)) (mesh_tris (mo_v r) (mo_f r)).
+Proof. exact public_idempotent_masked. Qed.
 Theorem C02_slice_idempotent_per_face : forall tol eps n o t t', (0 <= tol)%R ->
   In t' (slice_face ROps tol eps n o true t) -> forall m', slice_face ROps tol eps n o m' t' = [t'].
 Proof. exact slice_face_idempotent. Qed.
@@ -239,7 +261,7 @@ Example C02_renumbering_inhabited :
 Proof. intros [|[|i]] v; cbn; intros H; try exact H. destruct i; discriminate. Qed.
 
 Definition C02_all := (C02_unique_bincount_spec, C02_unique_bincount_onto, C02_slice_mapping_len, C02_slice_all_behind_empty, C02_public_all_behind_empty,
-  C02_slice_returns_on_domain, C02_slice_empty_inputs, C02_public_face_order_invariant, C02_public_face_order_invariant_nomask,
+  C02_slice_returns_on_domain, C02_slice_empty_inputs, C02_public_face_order_invariant, C02_public_face_order_invariant_nomask, C02_public_face_order_invariant_provenance, C02_public_idempotent_masked,
   C02_public_vertex_numbering_invariant, C02_slice_idempotent_masked, C02_public_idempotent,
   C02_slice_indices_valid_no_orphans, C02_renumber_keeps_coordinates, C02_slice_provenance, C02_slice_perm_relabel_invariant,
   C02_slice_idempotent, C02_slice_idempotent_per_face, C02_slice_complement, C02_kept_fractions_complement, C02_slice_complement_face_masked, C02_slice_mesh_complement,
